@@ -98,7 +98,16 @@ def print_case(case):
     if n < msl or p["kernel"] == "precomputed":
         return {"v": [], "stats": {"evals": 0}}
     model = Kauri(max_clusters=p["max_clusters"], max_depth=p["max_depth"], min_samples_split=mss, min_samples_leaf=msl,
-                  max_features=p["max_features"], max_leaves=p["max_leaves"], kernel=p["kernel"], random_state=p["seed"]).fit(X)
+                  max_features=p["max_features"], max_leaves=p["max_leaves"], kernel=p["kernel"], random_state=p["seed"])
+    if n % 2 == 1:
+        # history: the same object was fitted on other data (other width) and printed with names before
+        Xo = np.random.RandomState(7).normal(size=(6, d + 2))
+        with contextlib.redirect_stdout(io.StringIO()):
+            try:
+                print_kauri_tree(model.fit(Xo), ["n%d" % i for i in range(d + 2)])
+            except Exception:  # noqa
+                pass
+    model.fit(X)
     t = model.tree_
     used = sorted({f for f in t.features if f is not None})
     where = dict(n=n, d=d, n_nodes=t.n_nodes, used_features=used)
